@@ -7,6 +7,9 @@ PROP = dict(
         dict(name="sized", pkg="./compactindexsized", run="^TestVerif_C04$",
              files={"compactindexsized/zz_verif_c04_test.go": "harness/compactindexsized/c04_test.go"},
              timeout=900, timeout_thorough=2400),
+        dict(name="triples", pkg="./compactindexsized", run="^TestVerif_C04b$",
+             files={"compactindexsized/zz_verif_c04b_test.go": "harness/compactindexsized/c04b_test.go"},
+             timeout=600, timeout_thorough=1800),
         dict(name="legacy8", pkg="./deprecated/compactindex", run="^TestVerif_C04$",
              files={"deprecated/compactindex/zz_verif_c04_test.go": "harness/deprecated/compactindex/c04_test.go"},
              timeout=600, timeout_thorough=1800),
